@@ -5,8 +5,10 @@ import (
 	"context"
 	"encoding/base64"
 	"fmt"
+	"os/signal"
 	"sort"
 	"strings"
+	"syscall"
 
 	"git.defalsify.org/vise.git/db"
 	"git.defalsify.org/vise.git/lang"
@@ -612,11 +614,12 @@ func c10Strings(ops []c10op) []string {
 func C10() *vk.Check {
 	return &vk.Check{ID: "C10", Level: "exploration", MinEvaluations: 500, Shards: func(string) int { return 16 }, Run: runC10,
 		Rule: "lock-step reference map: PRNG sequences of 10..80 operations (Put / Get / SetPrefix / SetSession / SetLanguage / SetLock incl. seal / Dump on fs / resource.DbResource getters) are applied to one reference map keyed by (type, session-if-sessioned, key, language) and to each backend (mem, fs text, fs binary-key, Postgres fake); every result is compared with the model and therefore with every other backend. Four of five sequences use keys in the documented symbol grammar that never end in a language suffix; every fifth uses binary keys (bytes 0x00..0xff, base64 forms with '+') on mem, fs binary-key mode and Postgres. Well-formed keys (the alphabet contains the letters that double as fs type characters: P, 8, ...), session ids are dot-free incl. empty, values text and binary incl. empty, all six data types, language from SetLanguage or from the context value. " +
-			"distinct = hash(op list); non-trivial = at least 3 Puts and 3 Gets.",
+			"Plus a write-fault family on the fs backends: RLIMIT_FSIZE is lowered around one Put (write(2) fails or is cut short): a Put that reports success must have stored the complete value, a failed one must leave the previous value / not-found. distinct = hash(op list); non-trivial = at least 3 Puts and 3 Gets.",
 		Assumptions: []string{"trusted base: the reference map and, for Postgres, pgfake", "listings are compared for the types without language scope; Dump on mem/Postgres is outside the property"}}
 }
 
 func runC10(c *vk.Ctx) {
+	c10IOFault(c)
 	n := c.N(3000, 200000)
 	for i := 0; i < n; i++ {
 		if !c.Mine(i) {
@@ -651,6 +654,70 @@ func runC10(c *vk.Ctx) {
 		c.Eval(vk.Hash64(sb.String()), puts >= 3 && gets >= 3)
 		if i < 1 {
 			c.Sample(map[string]interface{}{"key": key, "ops": c10Strings(ops)})
+		}
+	}
+}
+
+// c10IOFault: the fs backends under a failing write(2) (file-size limit lowered around a single Put):
+// a Put that reports success must have stored the complete value; a failed Put must leave the latest
+// successful write (or not-found) in place, and the listing exact.
+func c10IOFault(c *vk.Ctx) {
+	if !c.Mine(0) || (c.Only != "" && c.Only != "iofault") {
+		return
+	}
+	c.Begin("iofault")
+	signal.Ignore(syscall.SIGXFSZ)
+	ctx := context.Background()
+	for _, name := range []string{"fs", "fsbin"} {
+		for _, size := range []int{200, 5000, 70000} {
+			for _, limit := range []uint64{0, 16, 4096} {
+				if int(limit) >= size {
+					continue
+				}
+				for _, prior := range []bool{true, false} {
+					b, err := app.NewBackend(name)
+					if err != nil {
+						continue
+					}
+					s, _ := b.Handle()
+					s.SetPrefix(db.DATATYPE_USERDATA)
+					s.SetSession("ses")
+					oldVal := []byte("the previous value")
+					if prior {
+						if err := s.Put(ctx, []byte("key"), oldVal); err != nil {
+							b.Cleanup()
+							continue
+						}
+					}
+					newVal := bytes.Repeat([]byte("N"), size)
+					var saved syscall.Rlimit
+					syscall.Getrlimit(syscall.RLIMIT_FSIZE, &saved)
+					syscall.Setrlimit(syscall.RLIMIT_FSIZE, &syscall.Rlimit{Cur: limit, Max: saved.Max})
+					perr := s.Put(ctx, []byte("key"), newVal)
+					syscall.Setrlimit(syscall.RLIMIT_FSIZE, &saved)
+					got, gerr := s.Get(ctx, []byte("key"))
+					c.EvalN(1, 1)
+					c.Count("io_fault_puts", 1)
+					what := fmt.Sprintf("%s: Put of %d bytes with the file-size limit at %d (prior value: %v) returned %v; Get then returns %d bytes, err %v", name, size, limit, prior, perr, len(got), gerr)
+					cs := map[string]interface{}{"backend": name, "value_bytes": size, "file_size_limit": limit, "prior_value": prior}
+					switch {
+					case perr == nil && (gerr != nil || !bytes.Equal(got, newVal)):
+						c.Violate(name+":put:write-fault-reported-as-success", what, "iofault", cs)
+					case perr != nil && prior && (gerr != nil || !bytes.Equal(got, oldVal)):
+						c.Violate(name+":put:failed-write-destroyed-previous-value", what, "iofault", cs)
+					case perr != nil && !prior && gerr == nil:
+						c.Violate(name+":put:failed-write-created-a-record", what, "iofault", cs)
+					}
+					if perr != nil {
+						c.Count("io_fault_puts_refused", 1)
+					}
+					// a later Put on the same handle works again
+					if err := s.Put(ctx, []byte("key"), []byte("after")); err != nil {
+						c.Violate(name+":put:store-wedged-after-write-fault", "Put after the fault: "+err.Error(), "iofault", cs)
+					}
+					b.Cleanup()
+				}
+			}
 		}
 	}
 }
